@@ -386,9 +386,19 @@ def t_pvalues(T):
                     T.canary(eng, f"{key}#canary@{ts},{base}", hy, eng.veq(CLsb, 1 - Phi(Sqrt(q) + 1)))
 
 
+from .BK_backend_ops import TRUSTED as BK_TRUSTED
+TRUSTED = TRUSTED + BK_TRUSTED
+
+
 def tasks(tier):
     return [("__init__", t_init), ("teststatistic", t_teststatistic), ("teststatistic.history", t_teststatistic_history), ("distributions", t_distributions),
-            ("AsymptoticTestStatDistribution", t_distribution_class), ("pvalues", t_pvalues)]
+            ("AsymptoticTestStatDistribution", t_distribution_class), ("pvalues", t_pvalues)] + _backend_ops(tier)
+
+
+def _backend_ops(tier):
+    # "every backend": sqrt, where, clip, astensor ... of each backend are proved to be the operations the contracts above assume
+    from .BK_backend_ops import backend_op_tasks
+    return backend_op_tasks(tier)
 
 
 def replay(r):
@@ -396,6 +406,9 @@ def replay(r):
     return the model's (q, q_A); compared with scipy's normal cdf evaluated on the oracle formulas"""
     model = r.get("model") or {}
     meta = r.get("meta") or {}
+    if meta.get("op") and meta.get("backend"):
+        from .BK_backend_ops import replay_backend_op
+        return replay_backend_op(r)
 
     def val(x):
         if isinstance(x, dict) and "num" in x:
